@@ -20,7 +20,7 @@ def TrackOk (rev : List Sample) (prev ld : Option Nat) : Prop :=
 
 def durOr (fb : Nat) (s : Sample) : Nat := match s.dur with | some d => d | none => fb
 
-theorem durationsOf_snoc (init : List Sample) (last : Sample) (fb : Option Nat) :
+theorem durationsOf_snoc_track (init : List Sample) (last : Sample) (fb : Option Nat) :
     durationsOf (init ++ [last]) fb = init.map (durOr 1) ++ [durOr (fb.getD 1) last] := by
   unfold durationsOf
   simp only [List.length_append, List.length_singleton, Nat.add_sub_cancel]
@@ -71,7 +71,7 @@ theorem track_duration (rev : List Sample) (prev ld : Option Nat) (h : TrackOk r
   | cons s rest =>
     obtain ⟨_, h2, h3, h4⟩ := h
     obtain ⟨o1, o2⟩ := older_sum s.dts rest h3
-    rw [List.reverse_cons, durationsOf_snoc]
+    rw [List.reverse_cons, durationsOf_snoc_track]
     have e1 : durOr (ld.getD 1) s = ld.getD 1 := by simp [durOr, h2]
     simp only [List.sum_append, List.map_reverse, List.sum_reverse, List.sum_cons, List.sum_nil,
       Nat.add_zero, e1, o1]
